@@ -247,14 +247,52 @@ struct FnEmit
         }
     }
 
+    // ---- flat layout (res mode, -flat): every basic block (and every piece of a block after a yield point or an
+    // exception check) is a guarded segment `if (e_X) { e_X = 0; ... }` laid out in reverse post order inside
+    // `while (verif_again)`; edges set the enable flag of their target, a backward edge also sets verif_again.
+    // Symex then joins the two sides of each guard immediately (cost linear in the code executed) instead of
+    // joining every early return at the function end (quadratic in the number of yield points).  Natural loops
+    // without any yield point are kept as ordinary goto loops inside one segment ("regions").
+    bool flat() const { return res && C.flat; }
+    std::map<BasicBlock*, int> pos;          // layout position of a block (region blocks: position of the region header)
+    std::map<BasicBlock*, int> regionOf;     // block -> region id (yield-free natural loop), absent = none
+    std::map<int, BasicBlock*> regionHead;
+    std::vector<std::string> flagNames;
+    int curPos = 0, curRegion = -1, xCnt = 0;
+    std::string flatPrologue;
+    std::string flagB(BasicBlock* B)
+    {
+        auto r = regionOf.find(B);
+        BasicBlock* H = r == regionOf.end() ? B : regionHead[r->second];
+        return "e_B" + std::to_string(bbId[H]);
+    }
+    std::string newFlag(const std::string& n)
+    {
+        flagNames.push_back(n);
+        return n;
+    }
+    // statement(s) that end the current segment and open the continuation segment
+    std::string contSeg()
+    {
+        std::string f = newFlag("e_X" + std::to_string(xCnt++));
+        return "{ " + f + " = 1; } } if (" + f + ") { " + f + " = 0;";
+    }
+    std::string abortStmt()    // leave the function (return / exception propagation): nothing gets enabled
+    {
+        if (curRegion >= 0) return "{ fr->pc = 0; fr->active = 0; goto RE" + std::to_string(curRegion) + "; }";
+        return "{ fr->pc = 0; fr->active = 0; }";
+    }
+
     std::string retStmt(const std::string& v)
     {
         if (!res) return v.empty() ? "return;" : "return " + v + ";";
+        if (flat()) return (v.empty() ? std::string() : "fr->ret = " + v + "; ") + abortStmt();
         return (v.empty() ? std::string() : "fr->ret = " + v + "; ") + (C.chain ? "fr->pc = 0; goto END;" : "fr->pc = 0; fr->active = 0; return 0;");
     }
     std::string excPropagate()
     {
         if (!res) return retStmt(C.zeroOf(F.getReturnType()));
+        if (flat()) return abortStmt();
         return C.chain ? "{ fr->pc = 0; goto END; }" : "{ fr->pc = 0; fr->active = 0; return 0; }";
     }
     // ---- res mode layout: a chain of segments (block starts and yield points).  In seek mode (resuming:
@@ -265,13 +303,24 @@ struct FnEmit
     std::string nextTok() { return "@N" + std::to_string(nSeg - 1) + "@"; }
     void beginBlockSeg(const std::string& label)
     {
+        if (flat()) return;    // handled by the flat layout driver
         segLabels.push_back(label);
         ++nSeg;
         os << " " << label << ": ;\n";
         if (res && C.chain) os << "  if (verif_mode) goto " << nextTok() << ";\n";
     }
+    std::vector<std::pair<int, std::string>> resumeFlags;    // flat: pc value -> flag of the segment to re-enter
     int beginYieldSeg()
     {
+        if (flat())
+        {
+            if (curRegion >= 0) die("internal: yield point inside a yield-free region");
+            int k = nextY++;
+            std::string f = newFlag("e_Y" + std::to_string(k));
+            resumeFlags.push_back({k, f});
+            os << "  " << f << " = 1; }\n  if (" << f << ") { " << f << " = 0;\n";
+            return k;
+        }
         int k = nextY++;
         std::string label = "Y" + std::to_string(k);
         segLabels.push_back(label);
@@ -284,6 +333,7 @@ struct FnEmit
     }
     std::string yieldRet(int k)
     {
+        if (flat()) return "{ fr->pc = " + std::to_string(k) + "; verif_yielded = 1; } else " + contSeg();
         if (!C.chain) return "{ fr->pc = " + std::to_string(k) + "; return 1; }";
         return "{ fr->pc = " + std::to_string(k) + "; verif_mode = 2; goto " + nextTok() + "; }";
     }
@@ -302,6 +352,16 @@ struct FnEmit
     }
     std::string gotoEdge(BasicBlock* from, BasicBlock* to)
     {
+        if (flat())
+        {
+            auto rt = regionOf.find(to);
+            if (curRegion >= 0 && rt != regionOf.end() && rt->second == curRegion)
+                return "{ " + edgeCopies(from, to) + "goto B" + std::to_string(bbId[to]) + "; }";    // inside the region
+            std::string s2 = "{ " + edgeCopies(from, to) + flagB(to) + " = 1; ";
+            if (pos[to] <= curPos) s2 += "verif_again = 1; ";
+            if (curRegion >= 0) s2 += "goto RE" + std::to_string(curRegion) + "; ";
+            return s2 + "}";
+        }
         return "{ " + edgeCopies(from, to) + "goto B" + std::to_string(bbId[to]) + "; }";
     }
 
@@ -704,6 +764,33 @@ struct FnEmit
                         os << " cf->pc = 0; }\n";
                     }
                 int k = beginYieldSeg();
+                if (flat())
+                {
+                    os << "  verif_y = 0;\n  switch (" << ref(tg) << ") {\n";
+                    for (size_t i = 0; i < cands.size(); ++i)
+                    {
+                        std::string cn = C.gname(cands[i]);
+                        os << "    case " << i + 1 << ": ";
+                        if (C.resumable.count(cands[i]))
+                        {
+                            os << "verif_y = " << cn << "__step();";
+                            if (!CB.getType()->isVoidTy()) os << " if (!verif_y) " << lhs << retFrom(cands[i], CB, "FRS_" + cn + "[verif_cur].ret") << ";";
+                        }
+                        else
+                        {
+                            std::string call = cn + "(";
+                            for (unsigned j = 0; j < CB.arg_size(); ++j) call += (j ? ", " : "") + argFor(cands[i], j, CB.getArgOperand(j));
+                            call += ")";
+                            os << lhs << (CB.getType()->isVoidTy() ? call : retFrom(cands[i], CB, call)) << ";";
+                        }
+                        os << " break;\n";
+                    }
+                    os << "    default: VERIF_ASSERT(0, \"indirect call: unknown target\"); VERIF_ASSUME(0);\n  }\n";
+                    os << "  if (verif_y) " << yieldRet(k) << "\n";
+                    if (mayThrow && !isa<InvokeInst>(CB))
+                        os << "  if (VERIF_EXC_PENDING) " << abortStmt() << " else " << contSeg() << "\n";
+                    return;
+                }
                 os << "  switch (" << ref(tg) << ") {\n";
                 for (size_t i = 0; i < cands.size(); ++i)
                 {
@@ -726,7 +813,12 @@ struct FnEmit
                 os << "    default: VERIF_ASSERT(0, \"indirect call: unknown target\"); VERIF_ASSUME(0);\n  }\n";
             }
         }
-        if (mayThrow && !isa<InvokeInst>(CB)) os << "  if (VERIF_EXC_PENDING) " << excPropagate() << "\n";
+        if (mayThrow && !isa<InvokeInst>(CB))
+        {
+            if (flat() && curRegion < 0) os << "  if (VERIF_EXC_PENDING) " << abortStmt() << " else " << contSeg() << "\n";
+            else
+                os << "  if (VERIF_EXC_PENDING) " << excPropagate() << "\n";
+        }
     }
 
     void emitInst(Instruction& I)
@@ -864,7 +956,14 @@ struct FnEmit
             if (L.isCleanup())
                 os << o << ".f1 = 0;\n";
             else
-                os << "{ VERIF_EXC_PENDING = 1; " << excPropagate() << " }\n";
+            {
+                if (flat() && curRegion < 0)
+                {
+                    os << "{ VERIF_EXC_PENDING = 1; }\n  if (VERIF_EXC_PENDING) " << abortStmt() << " else " << contSeg() << "\n";
+                }
+                else
+                    os << "{ VERIF_EXC_PENDING = 1; " << excPropagate() << " }\n";
+            }
             return;
         }
         case Instruction::Resume: os << "  VERIF_EXC_PENDING = 1; " << excPropagate() << "\n"; return;
@@ -891,8 +990,8 @@ struct FnEmit
             if (nb > 64) die("switch >64");
             os << "  switch ((u64)" << val(S.getCondition()) << ") {\n";
             for (auto& Cs : S.cases())
-                os << "    case " << Cs.getCaseValue()->getZExtValue() << "ULL: " << gotoEdge(BB, Cs.getCaseSuccessor()) << "\n";
-            os << "    default: " << gotoEdge(BB, S.getDefaultDest()) << "\n  }\n";
+                os << "    case " << Cs.getCaseValue()->getZExtValue() << "ULL: " << gotoEdge(BB, Cs.getCaseSuccessor()) << (flat() ? " break;" : "") << "\n";
+            os << "    default: " << gotoEdge(BB, S.getDefaultDest()) << (flat() ? " break;" : "") << "\n  }\n";
             return;
         }
         case Instruction::Unreachable: os << "  VERIF_UNREACHABLE();\n"; return;
@@ -948,6 +1047,83 @@ struct FnEmit
         return s;
     }
 
+    void emitFlatBody()
+    {
+        // 1. yield-free natural loops become regions
+        DominatorTree DT(F);
+        LoopInfo LI(DT);
+        int nreg = 0;
+        std::function<void(Loop*)> visit = [&](Loop* L) {
+            bool hasYield = false;
+            for (BasicBlock* B : L->blocks())
+                for (Instruction& I : *B)
+                    if (isYieldPoint(I)) hasYield = true;
+            if (!hasYield)
+            {
+                int r = nreg++;
+                regionHead[r] = L->getHeader();
+                for (BasicBlock* B : L->blocks()) regionOf[B] = r;
+                return;
+            }
+            for (Loop* S : L->getSubLoops()) visit(S);
+        };
+        for (Loop* L : LI) visit(L);
+        // 2. layout positions
+        ReversePostOrderTraversal<Function*> RPOT(&F);
+        std::vector<BasicBlock*> order(RPOT.begin(), RPOT.end());
+        int p = 0;
+        for (BasicBlock* B : order)
+        {
+            auto r = regionOf.find(B);
+            if (r != regionOf.end() && B != regionHead[r->second]) continue;
+            pos[B] = p++;
+        }
+        for (BasicBlock* B : order)
+        {
+            auto r = regionOf.find(B);
+            if (r != regionOf.end()) pos[B] = pos[regionHead[r->second]];
+        }
+        std::set<std::string> declared;
+        auto declFlag = [&](BasicBlock* B) {
+            std::string f = flagB(B);
+            if (declared.insert(f).second) flagNames.push_back(f);
+            return f;
+        };
+        for (BasicBlock* B : order) declFlag(B);
+        // 3. emission
+        std::set<int> regionDone;
+        for (BasicBlock* B : order)
+        {
+            auto r = regionOf.find(B);
+            if (r == regionOf.end())
+            {
+                curPos = pos[B];
+                curRegion = -1;
+                std::string f = flagB(B);
+                os << "  if (" << f << ") { " << f << " = 0; /* B" << bbId[B] << " */\n";
+                if (B == &F.getEntryBlock()) os << flatPrologue;
+                for (Instruction& I : *B) emitInst(I);
+                os << "  }\n";
+                continue;
+            }
+            if (!regionDone.insert(r->second).second) continue;
+            // whole region (in RPO order), classic labels and gotos, entered at its header
+            curPos = pos[B];
+            curRegion = r->second;
+            std::string f = flagB(B);
+            os << "  if (" << f << ") { " << f << " = 0; /* region " << curRegion << " */\n  goto B" << bbId[regionHead[curRegion]] << ";\n";
+            for (BasicBlock* RB : order)
+            {
+                auto rr = regionOf.find(RB);
+                if (rr == regionOf.end() || rr->second != curRegion) continue;
+                os << " B" << bbId[RB] << ": ;\n";
+                for (Instruction& I : *RB) emitInst(I);
+            }
+            os << " RE" << curRegion << ": ;\n  }\n";
+            curRegion = -1;
+        }
+    }
+
     void run(raw_ostream& protoOut, raw_ostream& bodyOut)
     {
         int n = 0;
@@ -988,7 +1164,10 @@ struct FnEmit
                 {
                     std::string g = "FRA_" + fname + "_" + c;
                     sdecls.push_back({C.ty(A.getParamByValType()), g + "[VERIF_NSLOT]"});
-                    os << "  " << g << "[verif_cur] = *" << val(&A) << "; " << val(&A) << " = &" << g << "[verif_cur];\n";
+                    std::string code = "  " + g + "[verif_cur] = *" + val(&A) + "; " + val(&A) + " = &" + g + "[verif_cur];\n";
+                    if (flat()) flatPrologue += code;    // belongs to the entry segment (not to every pass / resumption)
+                    else
+                        os << code;
                 }
                 else
                 {
@@ -996,8 +1175,13 @@ struct FnEmit
                     os << "  " << ref(c) << " = *" << val(&A) << "; " << val(&A) << " = &" << ref(c) << ";\n";
                 }
             }
-        os << "  goto B0;\n";
+        if (flat())
         {
+            emitFlatBody();
+        }
+        else
+        {
+            os << "  goto B0;\n";
             // reverse post order: only genuine loop back edges become backward gotos (CBMC counts every
             // backward goto as a loop to unwind)
             ReversePostOrderTraversal<Function*> RPOT(&F);
@@ -1051,6 +1235,16 @@ struct FnEmit
             bodyOut << "/* [resumable] " << dn << " */\nstatic int " << fname << "__step(void)\n{\n  struct FR_" << fname << "* fr = &FRS_" << fname
                     << "[verif_cur];\n\n";
             for (auto& d : ldecls) bodyOut << "  " << d.first << " " << d.second << ";\n";
+            if (flat())
+            {
+                bodyOut << "  int verif_again = 1, verif_yielded = 0, verif_y = 0;\n";
+                for (auto& f : flagNames) bodyOut << "  u1 " << f << " = 0;\n";
+                bodyOut << "  if (fr->pc == 0) { VERIF_ENC_ASSERT(!fr->active, \"re-entrant activation of a resumable function (recursion is not supported by the encoding)\"); fr->active = 1; }\n";
+                bodyOut << "  switch (fr->pc) { case 0: " << flagB(&F.getEntryBlock()) << " = 1; break;";
+                for (auto& rf : resumeFlags) bodyOut << " case " << rf.first << ": " << rf.second << " = 1; break;";
+                bodyOut << " default: VERIF_ASSUME(0); }\n  while (verif_again) {\n  verif_again = 0;\n" << body << "  }\n  return verif_yielded;\n}\n\n";
+                return;
+            }
             if (!C.chain)
             {
                 bodyOut << "  if (fr->pc == 0) { VERIF_ENC_ASSERT(!fr->active, \"re-entrant activation of a resumable function (recursion is not supported by the encoding)\"); fr->active = 1; }\n";
